@@ -284,6 +284,67 @@ theorem row_views (a : Obj α) :
   · unfold linT; split <;>
       exact ⟨_, r_linop_T_1, by simp [semSh, mkLin], by simp [semSh, mkLin], by simp [semDt, mkLin], by simp [semDt, mkLin]⟩
 
+
+/-! ### `Diagonal` closed forms: which `input_shape` / `input_dtype` the rebuilt `Diagonal` receives -/
+
+theorem r_diag_conj_0 : ctorRow model "diag" "conj" 0 = some ⟨"diag", "conj", 0, "Diagonal", (.attr "self" "input_shape"), .absent, (.attr "self" "input_dtype"), .absent, [("diagonal", "self.diagonal.conj()")]⟩ := by decide +kernel
+theorem r_diag_gram_op_0 : ctorRow model "diag" "gram_op" 0 = some ⟨"diag", "gram_op", 0, "Diagonal", (.attr "self" "input_shape"), .absent, (.attr "self" "input_dtype"), .absent, [("diagonal", "self.diagonal.conj() * self.diagonal")]⟩ := by decide +kernel
+theorem r_diag_add_0 : ctorRow model "diag" "__add__" 0 = some ⟨"diag", "__add__", 0, "Diagonal", (.attr "self" "input_shape"), .absent, .absent, .absent, [("diagonal", "self.diagonal + other.diagonal")]⟩ := by decide +kernel
+theorem r_diag_sub_0 : ctorRow model "diag" "__sub__" 0 = some ⟨"diag", "__sub__", 0, "Diagonal", (.attr "self" "input_shape"), .absent, .absent, .absent, [("diagonal", "self.diagonal - other.diagonal")]⟩ := by decide +kernel
+theorem r_diag_mul_0 : ctorRow model "diag" "__mul__" 0 = some ⟨"diag", "__mul__", 0, "Diagonal", (.attr "self" "input_shape"), .absent, .absent, .absent, [("diagonal", "self.diagonal * scalar")]⟩ := by decide +kernel
+theorem r_diag_truediv_0 : ctorRow model "diag" "__truediv__" 0 = some ⟨"diag", "__truediv__", 0, "Diagonal", (.attr "self" "input_shape"), .absent, .absent, .absent, [("diagonal", "self.diagonal / scalar")]⟩ := by decide +kernel
+theorem r_diag_matmul_0 : ctorRow model "diag" "__matmul__" 0 = some ⟨"diag", "__matmul__", 0, "Diagonal", (.attr "other" "input_shape"), .absent, .absent, .absent, [("diagonal", "self.diagonal * other.diagonal")]⟩ := by decide +kernel
+theorem r_scaledId_matmul_1 : ctorRow model "scaledId" "__matmul__" 1 = some ⟨"scaledId", "__matmul__", 1, "Diagonal", (.attr "other" "input_shape"), .absent, .absent, .absent, [("diagonal", "self._diagonal * other.diagonal")]⟩ := by decide +kernel
+
+/-- the `input_shape=` argument of a rebuilt `Diagonal` -/
+def shArg (self other : Meta) : SE → Option Shape
+  | .attr o f => if f = "input_shape" then (if o = "self" then some self.inShape else if o = "other" then some other.inShape else none) else none
+  | _ => none
+
+/-- the `input_dtype=` argument of a rebuilt `Diagonal`: absent (the default: the dtype of the new diagonal) or the
+    operand's input dtype -/
+def dtArg (self : Meta) : SE → Option (Option DT)
+  | .absent => some none
+  | .attr o f => if o = "self" ∧ f = "input_dtype" then some (some self.inDt) else none
+  | _ => none
+
+/-- `Diagonal.__add__/__sub__/__mul__/__truediv__/__matmul__` rebuild the `Diagonal` on `self.input_shape`
+    (`other.input_shape` for `@`) with NO `input_dtype`; `conj` / `gram_op` forward `self.input_dtype` — exactly the
+    arguments `rediag` receives in the model -/
+theorem diag_rows_used (cfg : Cfg) (sub : Bool) (a b : Obj α) (c : Scal α) :
+    (∃ row, ctorRow model "diag" (if sub then "__sub__" else "__add__") 0 = some row
+      ∧ shArg a.md b.md row.inSh = some a.md.inShape ∧ dtArg a.md row.inDt = some none
+      ∧ diagAddSub cfg sub a b = (if a.diagonal.2.1 = b.diagonal.2.1 then
+          rediag cfg (fun i => pm sub (a.diagonal.1.get i) (b.diagonal.1.get i)) a.diagonal.2.1
+            (resultType a.diagonal.2.2 b.diagonal.2.2) a.md.inShape none else .error .shape))
+    ∧ (∃ row, ctorRow model "diag" "__mul__" 0 = some row
+      ∧ shArg a.md b.md row.inSh = some a.md.inShape ∧ dtArg a.md row.inDt = some none
+      ∧ (c.kind.isScalarEquiv = true → diagMul cfg a c =
+          rediag cfg (fun i => a.diagonal.1.get i * c.val) a.diagonal.2.1 (resultTypeS a.diagonal.2.2 c.kind.sk) a.md.inShape none))
+    ∧ (∃ row, ctorRow model "diag" "__truediv__" 0 = some row
+      ∧ shArg a.md b.md row.inSh = some a.md.inShape ∧ dtArg a.md row.inDt = some none
+      ∧ (c.kind.isScalarEquiv = true → diagDiv cfg a c =
+          rediag cfg (fun i => a.diagonal.1.get i / c.val) a.diagonal.2.1 (resultTypeS a.diagonal.2.2 c.kind.sk) a.md.inShape none))
+    ∧ (∃ row, ctorRow model "diag" "conj" 0 = some row
+      ∧ shArg a.md b.md row.inSh = some a.md.inShape ∧ dtArg a.md row.inDt = some (some a.md.inDt)
+      ∧ (a.md.cls = .diag → diagConj cfg a =
+          rediag cfg (fun i => conj (a.diagonal.1.get i)) a.diagonal.2.1 a.diagonal.2.2 a.md.inShape (some a.md.inDt)))
+    ∧ (∃ row, ctorRow model "diag" "gram_op" 0 = some row
+      ∧ shArg a.md b.md row.inSh = some a.md.inShape ∧ dtArg a.md row.inDt = some (some a.md.inDt))
+    ∧ (∃ row, ctorRow model "diag" "__matmul__" 0 = some row
+      ∧ shArg a.md b.md row.inSh = some b.md.inShape ∧ dtArg a.md row.inDt = some none)
+    ∧ (∃ row, ctorRow model "scaledId" "__matmul__" 1 = some row
+      ∧ shArg a.md b.md row.inSh = some b.md.inShape ∧ dtArg a.md row.inDt = some none) := by
+  refine ⟨?_, ⟨_, r_diag_mul_0, by simp [shArg], by simp [dtArg], ?_⟩, ⟨_, r_diag_truediv_0, by simp [shArg], by simp [dtArg], ?_⟩,
+    ⟨_, r_diag_conj_0, by simp [shArg], by simp [dtArg], ?_⟩, ⟨_, r_diag_gram_op_0, by simp [shArg], by simp [dtArg]⟩,
+    ⟨_, r_diag_matmul_0, by simp [shArg], by simp [dtArg]⟩, ⟨_, r_scaledId_matmul_1, by simp [shArg], by simp [dtArg]⟩⟩
+  · cases sub
+    · exact ⟨_, r_diag_add_0, by simp [shArg], by simp [dtArg], rfl⟩
+    · exact ⟨_, r_diag_sub_0, by simp [shArg], by simp [dtArg], rfl⟩
+  · intro hc; unfold diagMul; simp only [hc, if_true]
+  · intro hc; unfold diagDiv; simp only [hc, if_true]
+  · intro hc; unfold diagConj; simp only [hc]
+
 end
 
 end Scico.OpAlg.Tables
